@@ -155,7 +155,7 @@ CHECKS = {
     "C16": dict(
         engine="ops", design_ref="DESIGN.md §6 C16",
         technique="Lean 4 theorems parametric in the plain semantics (the wiring unwrap/apply/wrap/write-back is proved for EVERY PlainSem) + source operator tables as proof obligations + differential execution vs the plain C++ expression",
-        text=("Proof: C16_value, C16_compare (value = plain comparison; hint iff sandbox memory is involved; never a plain bool), C16_unary, C16_update_tainted, C16_update_tvol (stored value = plain result or "
+        text=("Proof: C16_value, C16_compare (value = plain comparison; hint iff sandbox memory is involved; never a plain bool), C16_logical / C16_cppLog (&& and ||: plain value, always tainted<bool>), C16_unary, C16_update_tainted, C16_update_tvol (stored value = plain result or "
               "abort, never a different value), C16_incdec_return, for every plain semantics and every wrapper combination; ops_tables_match ties the operator macro instantiation lists and the bodies of "
               "Pre/PostIncDecOps/CompoundAssignmentOp to rlbox.hpp on every run. Tied to the code by 16 operators x 8 wrapper combinations x 121 type pairs, all 8-bit x 8-bit operand pairs by block hash "
               "(8.4M evaluations in quick), compound assignment and ++/--, with result types asserted at compile time and values compared with the plain expression and with an independent Python rendering."),
